@@ -127,6 +127,10 @@ def random_table(rs, ncol, pattern, nrow=None):
         for j in range(1, ncol):
             z[:, j] = z[:, 0] * (-1 if j % 2 else 1) + 0.05 * z[:, j]
         z[0, :] = 3.0
+    elif pattern == 'exact-monotone':      # one column is an increasing function of another (|Kendall tau| exactly 1), the rest hang on loosely
+        for j in range(2, ncol):
+            z[:, j] = 0.5 * z[:, 0] + 0.8 * z[:, j]
+        z[:, 1] = np.exp(z[:, 0]) if ncol % 2 else 3.0 * z[:, 0] + 7.0
     cols = ['v%d' % i for i in range(ncol)]
     return pd.DataFrame(z, columns=cols, index=rs.permutation(n) + 3)       # the row index is not 0..n-1
 
